@@ -216,6 +216,7 @@ class Message:
 
         """
         header = MessageHeader.from_bytes(msg_data)
+        received_flags = header.command_flags
         if header.command_code in all_commands:
             cmd_type = all_commands[header.command_code]
             if plain_msg:
@@ -240,6 +241,9 @@ class Message:
             avps.append(Avp.from_unpacker(unpacker))
 
         msg = msg_type(header, avps)
+        # The command subclasses set request/proxiable flag defaults for newly
+        # built messages; a decoded message keeps the flags it arrived with
+        msg.header.command_flags = received_flags
 
         return msg
 
